@@ -2017,6 +2017,12 @@ class IMapIterator:
     def _ack(self, i, time_accepted, pid, *args):
         self._worker_pids.append(pid)
 
+    def _set_terminated(self, signum=None):
+        try:
+            raise Terminated(-(signum or 0))
+        except Terminated:
+            self._set(None, (False, ExceptionInfo()))
+
     def ready(self):
         return self._ready
 
